@@ -146,7 +146,10 @@ def run(res, tier):
         raise AnalysisBroken('RemoveChild: the _children->Remove call was not found')
     keyparam = f.params[0]['d']
     rie_ok = [c for c in rie if c.args() and A.strip_casts(c.args()[0]).get('d') == keyparam]
-    ok = bool(rie_ok) and all(P.must_precede(f, rie_ok, d, escapes=P.escape_edges(f)) for d in drops)
+    # "nothing to do" edges are those of the looked-up child being NULL; a test of a *parameter* (the optional notifier) is not one of them — the index entry must go on the quiet path too
+    pset = set(p_['d'] for p_ in f.params)
+    esc = set(e for e in P.escape_edges(f) if not any(x['k'] == 'DeclRefExpr' and x.get('d') in pset for x in f.nodes[f.blocks[e[0]].cond].walk()))
+    ok = bool(rie_ok) and all(P.must_precede(f, rie_ok, d, escapes=esc) for d in drops)
     res.ob('CHILD-LINK', f.where(), 'DataNode::RemoveChild(key) calls RemoveIndexEntry(key, …) before _children->Remove(key)', ok, function=f.q,
            how='RemoveIndexEntry(key) at line %s precedes the drop on every non-null path' % (rie_ok[0].get('l') if rie_ok else '?'), key='CHILD-LINK|%s|RemoveIndexEntry' % f.q,
            message='DataNode::RemoveChild can drop a child while its entry stays in the ordered index: the index then lists a node that no longer exists')
@@ -221,6 +224,27 @@ def run(res, tier):
     res.ob('INDEX-OBSERVERS', f.where(gens[0]), 'InsertOrderedChild uses a generated child name only on the edge where HasChild(name) is false', okn, function=f.q, key='INDEX-OBSERVERS|%s|fresh-name' % f.q,
            message='DataNode::InsertOrderedChild uses a generated name without checking that no child has it: PutChild then replaces the existing child while its old index entry stays, so the index lists '
                    'the name twice and one slot refers to a node that is no longer a child')
+    # ---- round-2 additions
+    SRS2 = 'muscle::StorageReflectSession'
+    f = fx.fn1(SRS2 + '::NodeIndexChanged')
+    ups = P.calls(f, r'::UpdateSubscriptionIndexMessage$')
+    dirty = [n for n in f.walk() if n['k'] == 'BinaryOperator' and n.get('op') == '=' and A.strip_casts(n['ch'][0]).get('n') == '_subsDirty' and A.strip_casts(n['ch'][1]).get('v') in (1, True)]
+    if not ups:
+        raise AnalysisBroken('INDEX-OBSERVERS: NodeIndexChanged: UpdateSubscriptionIndexMessage call not found')
+    okd = bool(dirty) and all(P.must_precede(f, dirty, u) or P.must_follow(f, u, dirty)[0] for u in ups)
+    res.ob('INDEX-OBSERVERS', f.where(ups[0]), 'NodeIndexChanged marks the subscription Messages dirty whenever it queues an index instruction', okd, function=f.q, key='INDEX-OBSERVERS|%s|dirty' % f.q,
+           message='NodeIndexChanged queues an index instruction without setting _subsDirty: PushSubscriptionMessages() flushes only while that flag is set, so a pure index operation (reorder, quiet insert) '
+                   'stays parked in the pending Message; the replica is stale at quiescence and the parked instructions arrive after a later snapshot')
+    f = fx.fn1(SRS2 + '::NodeCreated')
+    okm = False
+    for c in f.walk():
+        if c.is_call() and (c.get('q') or '') == SRS2 + '::GetDataNodeSubscribersTableFromPool' and len(c.args()) > 2:
+            d = A.strip_casts(c.args()[2])
+            if d['k'] == 'CXXMemberCallExpr' and (d.get('q') or '').endswith('::GetMatchCount') and d.receiver() is not None and A.strip_casts(d.receiver()).get('n') == '_subscriptions':
+                okm = True
+    res.ob('INDEX-OBSERVERS', f.where(), 'NodeCreated marks a new node with the number of matching subscription paths (GetMatchCount)', okm, function=f.q, key='INDEX-OBSERVERS|%s|matchcount' % f.q,
+           message='NodeCreated no longer records how many of the session\'s subscription paths match the new node: the per-node mark is a per-path reference count, so removing one of two overlapping '
+                   'subscriptions erases the session from the node\'s subscriber table and it stops receiving index updates it is still subscribed to')
     res.explanation = ('Static decision, on the resolved AST/CFG of DataNode.cpp and StorageReflectSession.cpp, of the pairing that makes the index update log replayable: %d mutation sites of '
                        'DataNode::_orderedIndex were found; each insert/remove is followed on every non-failure, non-quiet path by the notification with the matching op code and the same position '
                        'expression; nothing outside DataNode writes the index; RemoveChild unlinks the index entry first; the snapshot is clear + in-order inserts with the loop variable as position. '
